@@ -853,6 +853,11 @@ impl Driver {
     /// Logical observation of the memory (C42/C40/C23/C28): frame table, exact content of active
     /// frames, timeline, search answers per stored word, vector answers.
     pub fn observe(&mut self) -> Value {
+        self.observe_with(false)
+    }
+
+    /// `ordered`: keep the ranked order of search hits and include their text (C28).
+    pub fn observe_with(&mut self, ordered: bool) -> Value {
         let model = self.model.clone();
         let Some(mem) = self.mem.as_mut() else { return json!(null) };
         let mut frames = Vec::new();
@@ -874,9 +879,13 @@ impl Driver {
                 let req = memvid_core::SearchRequest { query: w.clone(), top_k: 50, snippet_chars: 80, uri: None, scope: None, cursor: None, as_of_frame: None, as_of_ts: None, no_sketch, acl_context: None, acl_enforcement_mode: Default::default() };
                 let ans = match guard(|| mem.search(req)) {
                     Ok(Ok(r)) => {
-                        let mut ids: Vec<(u64, usize, usize)> = r.hits.iter().map(|h| (h.frame_id, h.range.0, h.range.1)).collect();
-                        ids.sort();
-                        json!(ids)
+                        if ordered {
+                            json!(r.hits.iter().map(|h| json!([h.frame_id, h.range.0, h.range.1, h.text])).collect::<Vec<_>>())
+                        } else {
+                            let mut ids: Vec<(u64, usize, usize)> = r.hits.iter().map(|h| (h.frame_id, h.range.0, h.range.1)).collect();
+                            ids.sort();
+                            json!(ids)
+                        }
                     }
                     Ok(Err(_)) => json!("error"),
                     Err(p) => json!(format!("panic: {p}")),
@@ -910,6 +919,133 @@ impl Driver {
                 };
                 self.violation(&format!("{what}:changed-{part}"), format!("{what} changed the {part} observation: {detail}"));
             }
+        }
+    }
+
+    /// C28: the same battery on the live handle, a reopened handle, a read-only handle and a
+    /// doctored copy of the file.
+    pub fn check_persisted_views(&mut self) {
+        if self.mem.is_none() {
+            return;
+        }
+        self.commit();
+        if !self.viol.is_empty() {
+            return;
+        }
+        let live = self.observe_with(true);
+        drop(self.mem.take());
+        // reopened read-write
+        match guard(|| Memvid::open(&self.path)) {
+            Ok(Ok(m)) => self.mem = Some(m),
+            Ok(Err(e)) => {
+                self.violation("open-failed", format!("Err: {e}"));
+                return;
+            }
+            Err(p) => {
+                self.violation("panic:open", p);
+                return;
+            }
+        }
+        let reopened = self.observe_with(true);
+        drop(self.mem.take());
+        for part in ["frames", "timeline", "search", "vec"] {
+            if live[part] != reopened[part] {
+                self.violation(&format!("views:reopened-differs-from-live:{part}"), format!("live {} reopened {}", live[part], reopened[part]).chars().take(400).collect());
+            }
+        }
+        // read-only
+        match guard(|| Memvid::open_read_only(&self.path)) {
+            Ok(Ok(m)) => self.mem = Some(m),
+            Ok(Err(e)) => {
+                self.violation("views:open-read-only-failed", format!("Err: {e}"));
+                return;
+            }
+            Err(p) => {
+                self.violation("panic:open-read-only", p);
+                return;
+            }
+        }
+        let ro = self.observe_with(true);
+        drop(self.mem.take());
+        for part in ["frames", "timeline", "search", "vec"] {
+            if live[part] != ro[part] {
+                self.violation(&format!("views:read-only-differs-from-live:{part}"), format!("live {} read-only {}", live[part], ro[part]).chars().take(400).collect());
+            }
+        }
+        // doctored copy (indexes rebuilt from scratch): same sets of hits
+        let copy = self.dir.join("copy.mv2");
+        if std::fs::copy(&self.path, &copy).is_ok() {
+            let opts = memvid_core::DoctorOptions { rebuild_lex_index: true, rebuild_time_index: true, rebuild_vec_index: true, ..Default::default() };
+            match guard(|| Memvid::doctor(&copy, opts)) {
+                Err(p) => self.violation("panic:doctor", p),
+                Ok(Err(e)) => self.violation("views:doctor-failed", format!("Err: {e}")),
+                Ok(Ok(_)) => {
+                    let orig = std::mem::replace(&mut self.path, copy.clone());
+                    match guard(|| Memvid::open(&self.path)) {
+                        Ok(Ok(m)) => {
+                            self.mem = Some(m);
+                            let doc = self.observe_with(true);
+                            drop(self.mem.take());
+                            let as_set = |v: &Value| -> Value {
+                                // per query: sorted set of (frame, range, text)
+                                let mut m = serde_json::Map::new();
+                                for (k, hits) in v.as_object().cloned().unwrap_or_default() {
+                                    let mut items: Vec<String> = hits.as_array().map(|a| a.iter().map(|h| h.to_string()).collect()).unwrap_or_else(|| vec![hits.to_string()]);
+                                    items.sort();
+                                    m.insert(k, json!(items));
+                                }
+                                Value::Object(m)
+                            };
+                            if live["frames"] != doc["frames"] {
+                                self.violation("views:doctored-differs-from-live:frames", "frame table differs after doctor".into());
+                            }
+                            if live["timeline"] != doc["timeline"] {
+                                self.violation("views:doctored-differs-from-live:timeline", format!("live {} doctored {}", live["timeline"], doc["timeline"]));
+                            }
+                            if as_set(&live["search"]) != as_set(&doc["search"]) {
+                                self.violation("views:doctored-differs-from-live:search", format!("live {} doctored {}", live["search"], doc["search"]).chars().take(400).collect());
+                            }
+                            if live["vec"] != doc["vec"] {
+                                self.violation("views:doctored-differs-from-live:vec", format!("live {} doctored {}", live["vec"], doc["vec"]).chars().take(400).collect());
+                            }
+                        }
+                        Ok(Err(e)) => self.violation("views:doctored-copy-does-not-open", format!("Err: {e}")),
+                        Err(p) => self.violation("panic:open", p),
+                    }
+                    self.path = orig;
+                }
+            }
+            let _ = std::fs::remove_file(&copy);
+        }
+        self.outcomes.push("views:compared".into());
+    }
+
+    /// C28: a search issued between a put and its commit must not return a frame that does
+    /// not contain the query.
+    pub fn check_precommit_search(&mut self) {
+        let model = self.model.clone();
+        let Some(mem) = self.mem.as_mut() else { return };
+        let words: Vec<String> = model.frames.iter().filter_map(|f| f.word.clone()).collect();
+        let mut bad = Vec::new();
+        for w in words {
+            let req = memvid_core::SearchRequest { query: w.clone(), top_k: 20, snippet_chars: 80, uri: None, scope: None, cursor: None, as_of_frame: None, as_of_ts: None, no_sketch: false, acl_context: None, acl_enforcement_mode: Default::default() };
+            match guard(|| mem.search(req)) {
+                Err(p) => bad.push(("panic:search".to_string(), p)),
+                Ok(Err(_)) => self.outcomes.push("precommit-search:error".into()),
+                Ok(Ok(r)) => {
+                    self.outcomes.push(if r.hits.is_empty() { "precommit-search:no-hits".into() } else { "precommit-search:hits".into() });
+                    for h in &r.hits {
+                        let text = mem.frame_text_by_id(h.frame_id).unwrap_or_default().to_lowercase();
+                        let tags = mem.frame_by_id(h.frame_id).map(|f| f.tags.join(" ").to_lowercase()).unwrap_or_default();
+                        if !text.contains(&w) && !tags.contains(&w) {
+                            bad.push(("views:pre-commit-hit-does-not-contain-query".to_string(), format!("search({w}) before commit returned frame {} whose text is {:?}", h.frame_id, text.chars().take(60).collect::<String>())));
+                        }
+                    }
+                }
+            }
+        }
+        for (s, d) in bad {
+            self.violation(&s, d);
         }
     }
 
@@ -1440,6 +1576,9 @@ pub fn run_case(scratch: &Scratch, case: &Value) -> Value {
             break;
         }
         d.between();
+        if prop == "C28" && (op.starts_with("put") || op.starts_with("upd") || op.starts_with("del")) {
+            d.check_precommit_search();
+        }
         if prop == "C26" && (op == "commit" || op == "reopen" || op == "abandon") {
             d.check_derived(&format!("after {op}"), false);
         }
@@ -1452,7 +1591,10 @@ pub fn run_case(scratch: &Scratch, case: &Value) -> Value {
         }
     }
     // final materialisation so that every history ends in a compared state
-    if !redundant && d.viol.is_empty() && d.mem.is_some() {
+    if !redundant && d.viol.is_empty() && d.mem.is_some() && prop == "C28" {
+        d.step = prefix.len() + ops.len();
+        d.check_persisted_views();
+    } else if !redundant && d.viol.is_empty() && d.mem.is_some() {
         d.step = prefix.len() + ops.len();
         d.reopen("drop");
         if prop == "C19" {
